@@ -132,6 +132,10 @@ def _q1b(i0, i1, o0, o1, e0, e1, hs, si, so):
     ishapes, oshapes = shapes(IN[:kin]), shapes(OUT[:kout])
     if not (q.in_range(hs, 4) and q.in_range(si, len(ishapes)) and q.in_range(so, len(oshapes))):
         return q.SKIP
+    if "so" in q.SHARD and so != q.SHARD["so"]:
+        return q.SKIP
+    if "si" in q.SHARD and si != q.SHARD["si"]:
+        return q.SKIP
     side = q.SHARD.get("side", "both")
     if side == "in" and so != 0:
         return q.SKIP
@@ -298,7 +302,9 @@ QUERIES = [
      "bound": "k_in,k_out in 0..2 (quick) / 0..3 (thorough); mtimes unbounded symbolic ints, and - subsec shards - symbolic multiples of a quarter second that compare like reals but truncate under int(); existence of every output; 4 spec-hash situations"},
     {"name": "Q1b", "fn": q1b,
      "shards": {"quick": [dict(g, side=sd) for g in ({"kin": 0, "kout": 0}, {"kin": 1, "kout": 1}, {"kin": 2, "kout": 1}, {"kin": 1, "kout": 2}) for sd in ("in", "out")],
-                "thorough": [dict(g, side=sd) for g in _grid(2) for sd in ("in", "out")] + [{"kin": 1, "kout": 1, "side": "both"}, {"kin": 0, "kout": 0, "side": "both"}]},
+                "thorough": [dict(g, side="in", si=k) for g in _grid(2) for k in range(len(shapes(IN[:g["kin"]])))]
+                            + [dict(g, side="out", so=k) for g in _grid(2) for k in range(len(shapes(OUT[:g["kout"]])))]
+                            + [{"kin": 1, "kout": 1, "side": "both", "si": k} for k in range(len(shapes(IN[:1])))] + [{"kin": 0, "kout": 0, "side": "both"}]},
      "timeout": {"quick": 240, "thorough": 1200},
      "bound": "(k_in,k_out) in {(0,0),(1,1),(2,1),(1,2)} (quick) / 0..2 squared (thorough); container shape catalogue of vf/props/C01.py:shapes(), "
               "varied on one side at a time (the other side flat list); thorough adds inputs x outputs shapes jointly for (1,1) and (0,0)"},
